@@ -71,5 +71,31 @@ TEXTS = {
                  "for graph kinds that include types; roots are plain (attribute-less) targets under the proviso."),
         "technique": "Coq proof (characterisation of segment via the walk theorem) + proved decision procedure on real segments + relational check against real direct builds",
     },
+    "C06": {
+        "text": ("Selection-function level of C06. Coq theorems over an executable model of packages.rs "
+                 "(Model/Version.v: resolve_version, the tiers 1, 1.5, 2, 3 of JsrPackageVersionResolver::"
+                 "resolve_version with the had_higher_date_version flag, NewestDependencyDateOptions::"
+                 "get_for_package, matches_newest_dependency_date), for ALL version sets, rank functions, match "
+                 "predicates, dates, existing and cached collections: the answer is characterised tier by tier "
+                 "by a declarative 'highest element satisfying P' predicate (C06_select); the statement allows "
+                 "exactly one answer when Version::cmp separates the versions, and otherwise answers differ only "
+                 "between versions of Equal precedence (C06_select_unique, _up_to_rank); hence independence of "
+                 "HashMap/iterator/HashSet order (C06_order_free); exclusion by exact name or prefix removes the "
+                 "cutoff and nothing else does (C06_get_for_package, C06_excluded); the not-found error carries the "
+                 "date iff a matching registry version was excluded by it (C06_error_flag). Order independence "
+                 "without distinct ranks is refuted in the model and on the real code (known finding F-C06a: "
+                 "versions differing in build metadata only). The real resolver is compared with the extracted "
+                 "model on every registry info of <= 3 of 5 versions x yanked x 4 date positions (exhaustive over "
+                 "existing/cached subsets in the thorough tier) and on sampled larger inputs; real answers under "
+                 "two HashMap iteration orders are judged by the proved decision procedure."),
+        "design_ref": "DESIGN.md section 5 C06",
+        "note": ("Trusted: Coq kernel; extraction; the harness's interning of versions (identity = Eq) and its "
+                 "computation of the rank (Version::cmp, checked to be a total preorder on each universe) and of the "
+                 "match matrix (VersionReq::matches) with the real deno_semver. The cutoff comparison follows the "
+                 "code (created < cutoff). NOT covered yet: graph-level resolution (Builder::resolve_jsr_nv, "
+                 "jsr_unification_decides / cached-manifest probe, validate_jsr_specifier tag rejection, "
+                 "fill_from_lockfile seeding, used_yanked_packages bookkeeping) - these need the builder model."),
+        "technique": "Coq proof (loop invariant of the fold-max, refinement to a declarative best-of-tier spec, uniqueness) + bounded-exhaustive and sampled differential testing of the extracted model against the public API + proved decision procedure on real answers",
+    },
 }
 NOT_YET = {}
